@@ -1574,7 +1574,7 @@ def run(a):
 NO_PROTO = set()
 RT_BUILTIN = {
     'malloc', 'free', 'calloc', 'realloc', 'memcpy', 'memmove', 'memset', 'memcmp', 'strlen', 'strcmp', 'strncmp',
-    'strcpy', 'strchr', 'strrchr', 'memchr', 'abort', 'exit',
+    'strcpy', 'strcat', 'strchr', 'strrchr', 'memchr', 'abort', 'exit',
 }
 
 
